@@ -90,7 +90,7 @@ func genAlloc(seed uint64, index int, tier string) *AScenario {
 	r := newRng(seed)
 	sc := &AScenario{Engine: "alloc", Prop: "C20", Seed: seed, Index: index}
 	pr := r.fork(1)
-	sc.Pattern = pick(pr, corpus)
+	sc.Pattern = pickPattern(pr)
 	if pr.p(1, 5) {
 		sc.Pattern = mutatePattern(pr, sc.Pattern)
 	}
@@ -111,6 +111,7 @@ func genAlloc(seed uint64, index int, tier string) *AScenario {
 		sc.Pattern = pick(pr, blowupPatterns)
 	}
 	re := parsePattern(sc.Pattern)
+	genASCII = r.fork(9).p(1, 3) // a third of the scenarios: 7-bit haystacks (ASCII-only fast paths)
 	alpha := patternAlphabet(sc.Pattern)
 	hr := r.fork(3)
 	nh := hr.between(1, 3)
